@@ -54,12 +54,12 @@ func (tdsChan *Channel) Login(ctx context.Context, config *LoginConfig) error {
 	// Add servername/password combination to remote servers
 	// The first 'remote' server is the current server with an empty
 	// server name.
+	// The list is built for this login only - the passed config is not
+	// modified, otherwise the entry of an earlier login (with the
+	// password of that login) would be sent again when the config is
+	// reused.
 	firstRemoteServer := LoginConfigRemoteServer{Name: "", Password: config.DSN.Password}
-	if len(config.RemoteServers) == 0 {
-		config.RemoteServers = []LoginConfigRemoteServer{firstRemoteServer}
-	} else {
-		config.RemoteServers = append([]LoginConfigRemoteServer{firstRemoteServer}, config.RemoteServers...)
-	}
+	remoteServers := append([]LoginConfigRemoteServer{firstRemoteServer}, config.RemoteServers...)
 
 	pack, err := config.pack()
 	if err != nil {
@@ -235,16 +235,16 @@ func (tdsChan *Channel) Login(ctx context.Context, config *LoginConfig) error {
 		return fmt.Errorf("error queueing Params password package: %w", err)
 	}
 
-	if len(config.RemoteServers) > 0 {
+	if len(remoteServers) > 0 {
 		// encrypted remote password
 		if err := tdsChan.QueuePackage(ctx, NewMsgPackage(TDS_MSG_HASARGS, TDS_MSG_SEC_REMPWD3)); err != nil {
 			return fmt.Errorf("error queueing message package for remote servers: %w", err)
 		}
 
-		paramFmts := make([]FieldFmt, len(config.RemoteServers)*2)
-		params := make([]FieldData, len(config.RemoteServers)*2)
+		paramFmts := make([]FieldFmt, len(remoteServers)*2)
+		params := make([]FieldData, len(remoteServers)*2)
 		for i := 0; i < len(paramFmts); i += 2 {
-			remoteServer := config.RemoteServers[i/2]
+			remoteServer := remoteServers[i/2]
 
 			remnameFmt, remnameData, err := LookupFieldFmtData(asetypes.VARCHAR)
 			if err != nil {
